@@ -29,22 +29,45 @@ from pytype.pytd import pytd_utils
 
 OBJ, INT, BOOL, STR, NONE = ("builtins.object", "builtins.int", "builtins.bool",
                              "builtins.str", "builtins.NoneType")
+GBASE, GSUB, GFIXED = "m.Base", "m.Sub", "m.Fixed"
 SUPER = {OBJ: None, INT: OBJ, BOOL: INT, STR: OBJ, NONE: OBJ,
-         "builtins.list": OBJ, "builtins.tuple": OBJ, "typing.Callable": OBJ}
+         "builtins.list": OBJ, "builtins.tuple": OBJ, "typing.Callable": OBJ,
+         # user generics: class Base(Generic[T]); class Sub(Base[T]) forwards its
+         # parameter; class Fixed(Base[int], Generic[T]) fixes the base's parameter
+         GBASE: OBJ, GSUB: GBASE, GFIXED: GBASE}
+_T = pytd.TypeParameter("T")
 
 
 def _mk_class(name):
-  bases = () if SUPER[name] is None else (pytd.ClassType(SUPER[name]),)
-  return pytd.Class(name, (), bases, (), (), (), (), None, ())
+  if SUPER[name] is None:
+    bases = ()
+  elif name == GSUB:
+    bases = (pytd.GenericType(pytd.ClassType(GBASE), (_T,)),)
+  elif name == GFIXED:
+    bases = (pytd.GenericType(pytd.ClassType(GBASE), (pytd.ClassType(INT),)),)
+  else:
+    bases = (pytd.ClassType(SUPER[name]),)
+  template = (pytd.TemplateItem(_T),) if name in (GBASE, GSUB, GFIXED) else ()
+  return pytd.Class(name, (), bases, (), (), (), (), None, template)
 
 
 DEPS = pytd.TypeDeclUnit(
     "builtins", (), (), tuple(_mk_class(n) for n in SUPER), (), ())
 
-LEAVES = [pytd.ClassType(INT), pytd.ClassType(BOOL), pytd.ClassType(STR),
-          pytd.ClassType(NONE), pytd.ClassType(OBJ), pytd.AnythingType(),
-          pytd.NothingType()]
-LEAF_NAMES = ["int", "bool", "str", "None", "object", "Any", "nothing"]
+def _g(cls, param):
+  return pytd.GenericType(pytd.ClassType(cls), (pytd.ClassType(param),))
+
+
+GENERIC = param("C11_GENERIC", quick=0, thorough=0)   # 1: leaves are user generic classes
+if GENERIC:
+  LEAVES = [_g(GBASE, INT), _g(GBASE, STR), _g(GSUB, STR), _g(GFIXED, STR), _g(GSUB, INT),
+            pytd.ClassType(INT), pytd.ClassType(GBASE)]
+  LEAF_NAMES = ["Base[int]", "Base[str]", "Sub[str]", "Fixed[str]", "Sub[int]", "int", "Base"]
+else:
+  LEAVES = [pytd.ClassType(INT), pytd.ClassType(BOOL), pytd.ClassType(STR),
+            pytd.ClassType(NONE), pytd.ClassType(OBJ), pytd.AnythingType(),
+            pytd.NothingType()]
+  LEAF_NAMES = ["int", "bool", "str", "None", "object", "Any", "nothing"]
 NL = len(LEAVES)
 
 
@@ -64,6 +87,19 @@ class Obj:  # a plain object() instance
     return "<obj>"
 
 
+class GenInst:
+  """Instance of a user generic class: its own parameter's element and the
+  element seen through Base (they differ for Fixed, whose base is Base[int])."""
+
+  def __init__(self, cls, elem, base_elem):
+    self.cls, self.elem, self.base_elem = cls, elem, base_elem
+
+  def __repr__(self):
+    return "<%s of %r>" % (self.cls, self.elem)
+
+
+GEN_VALUES = [GenInst(GBASE, 1, 1), GenInst(GBASE, "s", "s"), GenInst(GSUB, "s", "s"),
+              GenInst(GSUB, 1, 1), GenInst(GFIXED, "s", 1), GenInst(GFIXED, 1, 1)]
 BASE_VALUES = [Obj(), 1, True, "s", None]
 FN = Fn()
 
@@ -76,7 +112,7 @@ def _containers(mk, base):
 
 
 VALUES = (BASE_VALUES + _containers(list, BASE_VALUES) +
-          _containers(tuple, BASE_VALUES) + [FN])
+          _containers(tuple, BASE_VALUES) + [FN] + GEN_VALUES)
 SMALL_VALUES = BASE_VALUES + [[], [1], ["s"], (), (1,), (1, "s"), FN]
 
 
@@ -97,6 +133,8 @@ def class_of(v):
     return "builtins.tuple"
   if isinstance(v, Fn):
     return "typing.Callable"
+  if isinstance(v, GenInst):
+    return v.cls
   raise AssertionError(v)
 
 
@@ -133,6 +171,10 @@ def admits(t, v):
       return isinstance(v, tuple) and all(admits(t.parameters[0], x) for x in v)
     if base == "typing.Callable":
       return isinstance(v, Fn)
+    if base == GBASE:
+      return isinstance(v, GenInst) and admits(t.parameters[0], v.base_elem)
+    if base in (GSUB, GFIXED):
+      return isinstance(v, GenInst) and v.cls == base and admits(t.parameters[0], v.elem)
     raise UnknownType(base)
   if isinstance(t, (pytd.ClassType, pytd.NamedType)):
     if t.name not in SUPER:
@@ -169,7 +211,7 @@ LOSSLESS = ("lossless+deps", "lossless", "max_union=0")
 
 DEPTH = param("C11_DEPTH", quick=2, thorough=2)
 COMP = param("C11_COMP", quick=5, thorough=5)
-CNL = param("C11_NLEAVES", quick=NL, thorough=NL)
+CNL = param("C11_NLEAVES", quick=NL, thorough=NL)  # both leaf sets have 7 entries
 ROOT_UNION = param("C11_ROOT_UNION", quick=0, thorough=0)  # >0: root is a union of that many containers
 NN = G.nodes(DEPTH)
 CONST_SEL = Tuple[(int,) * (2 * NN + 1)]
@@ -196,7 +238,7 @@ def unit_for(ty):
 
 def is_plain_class_union(d):
   """A union of plain classes (no container, no Any/object/nothing)."""
-  if d[0] != G.K_UNION:
+  if d[0] != G.K_UNION or GENERIC:
     return False
   return all(c[0] == "leaf" and c[1] < 4 for c in d[1])
 
